@@ -408,6 +408,35 @@ func ruleTypeEqualFields(c *Ctx) []Obligation {
 	if eq == nil {
 		return []Obligation{undecided(R, "type equality", "-", "(*YangType).Equal not found")}
 	}
+	// Equal may hand both operands on to the function that does the comparing (a worker with a memo of the pairs
+	// seen, say): follow such a delegation
+	for d := 0; d < 3; d++ {
+		var next *ssa.Function
+		calls := 0
+		eachInstr(eq, func(in ssa.Instruction) {
+			call, isC := in.(*ssa.Call)
+			if !isC {
+				return
+			}
+			cal := call.Call.StaticCallee()
+			if cal == nil || !c.isRepoFn(cal) {
+				return
+			}
+			calls++
+			a := call.Call.Args
+			if len(a) >= 2 && len(cal.Params) >= 2 && isParamN(eq, a[0], 0) && isParamN(eq, a[1], 1) {
+				for _, r := range refsOf(call) {
+					if _, isR := r.(*ssa.Return); isR {
+						next = cal
+					}
+				}
+			}
+		})
+		if next == nil || calls != 1 || next == eq {
+			break
+		}
+		eq = next
+	}
 	st := yt.Underlying().(*types.Struct)
 	fromRecv, fromParam := map[*types.Var]bool{}, map[*types.Var]bool{}
 	c.eachInstrDeep(eq, func(in ssa.Instruction) {
